@@ -6718,3 +6718,30 @@ def _tv3_case(m, fi, ntrims, calls=None, extra=True):
     except Unsupported as ex:
         raise AnalysisError('%s: interpreter met an unsupported construct: %s' % (fi.key, ex))
     return why
+
+
+# ====================================================================================== C16 / C08 / C02: the binomial coefficient on integers
+def bn2(m, run, rule='BN2.binomial-coefficient-on-integers'):
+    """BN2: linalg.binomial_coefficient interpreted with exact arithmetic (integers and rationals; math.factorial is the integer function)
+    for 0 <= k <= 14 and 0 <= i <= k + 2: the result is C(k, i), 0 above the diagonal.  (Exact arithmetic cannot see a result that is
+    rounded wrongly through floating-point quotients: FD1 / FD2 look for floored factors and truncated float quotients.)"""
+    import math
+    from fractions import Fraction
+    fi = m.func('linalg.binomial_coefficient')
+    bad, cnt = [], 0
+    for k in range(0, 15):
+        for i in range(0, k + 3):
+            cnt += 1
+            sk = SK(m, {})
+            sk.exact = True
+            try:
+                out = sk.call(fi, [k, i], {})
+                want = math.comb(k, i) if i <= k else 0
+                if isinstance(out, Tok) or Fraction(out) != want:
+                    bad.append(('C(%d, %d)' % (k, i), 'returns %r, the binomial coefficient is %d' % (out, want)))
+            except Violation as v:
+                bad.append(('C(%d, %d)' % (k, i), '%s %s' % (v.msg, v.where())))
+            except Unsupported as ex:
+                raise AnalysisError('%s: interpreter met an unsupported construct: %s' % (fi.key, ex))
+    run.ob(rule, '%s :: %d (k, i) pairs' % (fi.key, cnt), not bad, 'k! / (i! (k - i)!) for i <= k, 0 above' if not bad else '%s: %s   [%d of %d]' % (bad[0][0], bad[0][1], len(bad), cnt),
+           'geomdl/linalg.py:%d in %s' % (fi.node.lineno, fi.key))
